@@ -80,3 +80,19 @@ def _logic_tables():
     from kyupy import logic
     from vcheck import core
     return gen_logic_tables.generate(logic, kyupy, os.path.join(core.REPO, 'src', 'kyupy', 'logic.py'))[0]
+
+
+@register('HeapSrc')
+def _heap_src():
+    import os
+    from translate import gen_heap
+    from vcheck import core
+    return gen_heap.generate(os.path.join(core.REPO, 'src', 'kyupy', 'sim.py'))[0]
+
+
+@register('LaunchSrc')
+def _launch_src():
+    import os
+    from translate import gen_launch
+    from vcheck import core
+    return gen_launch.generate(os.path.join(core.REPO, 'src', 'kyupy', '__init__.py'))[0]
